@@ -5,6 +5,8 @@ import (
 	"strings"
 	"time"
 
+	"github.com/enbility/ship-go/api"
+
 	vc "verifcommon"
 )
 
@@ -22,6 +24,7 @@ type PairScn struct {
 	RegBefore    [2]bool   `json:"reg_before_start"`
 	Simultaneous bool      `json:"simultaneous"` // both registrations released at the same instant after start
 	OneSided     bool      `json:"one_sided_visibility"`
+	SlowApp      [2]int    `json:"slow_app_ms"` // how long the applications' disconnect / setup callbacks take
 	Disturbs     []Disturb `json:"disturbs"`
 }
 
@@ -40,6 +43,9 @@ func genPair(r *vc.Rand) *PairScn {
 	if r.Chance(1, 4) {
 		// forced simultaneous dials: both sides register after Start at the same instant, both dial at once
 		sc.RegBefore, sc.Simultaneous, sc.OneSided = [2]bool{false, false}, true, false
+	}
+	if r.Chance(1, 3) {
+		sc.SlowApp = [2]int{vc.Pick(r, []int{0, 50, 300, 800}), vc.Pick(r, []int{0, 50, 300, 800})}
 	}
 	n := r.Intn(5)
 	for i := 0; i < n; i++ {
@@ -91,6 +97,8 @@ func runPair(sc *PairScn) (res pairResult) {
 	}
 	a.App.Echo.Store(true)
 	b.App.Echo.Store(true)
+	a.App.SlowMs.Store(int32(sc.SlowApp[0]))
+	b.App.SlowMs.Store(int32(sc.SlowApp[1]))
 	// registry watcher: logs every change of the entry for the peer (identity, state, closed)
 	stopWatch := make(chan struct{})
 	defer close(stopWatch)
@@ -98,6 +106,7 @@ func runPair(sc *PairScn) (res pairResult) {
 		nd, peer := pr[0], pr[1]
 		go func() {
 			last := ""
+			var lastConn api.ShipConnectionInterface
 			for {
 				select {
 				case <-stopWatch:
@@ -105,13 +114,34 @@ func runPair(sc *PairScn) (res pairResult) {
 				default:
 				}
 				cur := "none"
+				var curConn api.ShipConnectionInterface
 				if e, ok := nd.H().VerifRegistry()[peer.SKI]; ok {
 					cur = fmt.Sprintf("%p state=%d closed=%v", e.Connection, e.State, e.Closed)
+					curConn = e.Connection
 				}
 				if cur != last {
 					nw.L.Add(nd.Name, "registry", peer.SKI, cur, 0)
 					last = cur
 				}
+				if lastConn != nil && curConn != lastConn {
+					// the registry forgot a connection: it has to be one that ended (C11). Give a
+					// closing connection time to finish (graceful close: 500 ms), then look.
+					old := lastConn
+					h := nd.H()
+					go func() {
+						time.Sleep(1500 * time.Millisecond)
+						closed, _ := old.DataHandler().IsDataConnectionClosed()
+						select {
+						case <-stopWatch:
+							return
+						default:
+						}
+						if !closed && h == nd.H() {
+							nw.L.Add(nd.Name, "registry-dropped-live", peer.SKI, fmt.Sprintf("%p", old), 0)
+						}
+					}()
+				}
+				lastConn = curConn
 				time.Sleep(time.Millisecond)
 			}
 		}()
@@ -172,6 +202,7 @@ func runPair(sc *PairScn) (res pairResult) {
 		case "restart:B":
 			b.Restart()
 			b.App.Echo.Store(true)
+			b.App.SlowMs.Store(int32(sc.SlowApp[1]))
 			b.Register(a.SKI)
 			b.Start()
 		case "hide:A":
@@ -207,6 +238,21 @@ func runPair(sc *PairScn) (res pairResult) {
 		n0 := accepts()
 		time.Sleep(4 * time.Second)
 		res.Busy = accepts() != n0
+		if res.Busy {
+			// still dialling: give it another 40 s (more than ten further back-off rounds); a hub pair
+			// that keeps redialling without ever converging is a livelock, not a slow convergence
+			if WaitFor(40*time.Second, func() bool { ok, _ := pairState(nw, a, b); return ok }) {
+				time.Sleep(1200 * time.Millisecond)
+				if ok, _ := pairState(nw, a, b); ok {
+					res.Converged = true
+				}
+			}
+			if !res.Converged {
+				_, res.Reason = pairState(nw, a, b)
+				res.Reason = "redial-livelock:" + res.Reason
+				res.Busy = false
+			}
+		}
 		tl(fmt.Sprintf("not converged: %s busy=%v", res.Reason, res.Busy))
 	} else {
 		// payload echo in both directions on the kept connection
@@ -246,8 +292,14 @@ type hubFinding struct{ Prop, Sig, Detail string }
 // consistent with reality: the last one is "setup" exactly when a completed connection is registered.
 func monitorAccounting(res pairResult, class func(string)) []hubFinding {
 	var out []hubFinding
+	for _, e := range res.Evs {
+		if e.Kind == "registry-dropped-live" {
+			out = append(out, hubFinding{"C11", "registry-entry-dropped-for-live-connection", fmt.Sprintf("%s: the registry entry of connection %s was dropped or replaced while that connection was still open 1.5 s later", e.Who, e.S)})
+			break
+		}
+	}
 	if !res.Converged {
-		return nil
+		return out
 	}
 	for _, who := range []string{"A", "B"} {
 		last := ""
